@@ -27,7 +27,7 @@ type State struct {
 	cells map[*Obj]map[string]Val
 	havoc map[*Obj]int // >0: unwritten cells are unknown (fresh), value = epoch
 	dirty map[*Obj]bool
-	born  map[*Obj]bool // objects allocated on the way to this point
+	born  map[*Obj]bool       // objects allocated on the way to this point
 	ment  map[*Obj][]mapEntry // symbolic-key updates of map objects, in order
 }
 
